@@ -131,6 +131,12 @@ fn cause(case: &QCase, obs: &QObs, clause: &str) -> &'static str {
         // the float 5.0, which no Integer fact or conclusion equals. Atoms that can become such a
         // pattern: the goal itself, and rule-condition atoms on a field that some rule concludes
         // (the sub-goal is "derive it, then check the pattern").
+        // the same split happens to the text a rule premise is turned into when it becomes a
+        // sub-goal (`condition_to_goal_pattern` then `parse_goal_pattern`): a premise on a field
+        // that some rule concludes, whose string literal holds an operator token
+        if op_token_can_become_a_subgoal(case) {
+            return "operator-token-inside-string-literal-of-sub-goal";
+        }
         if int_eq_can_become_a_pattern(case) {
             return "integer-literal-of-goal-pattern-compared-as-float";
         }
@@ -162,6 +168,15 @@ fn cause(case: &QCase, obs: &QObs, clause: &str) -> &'static str {
         return "integer-literal-of-goal-pattern-compared-as-float";
     }
     "unexplained"
+}
+
+fn op_token_can_become_a_subgoal(case: &QCase) -> bool {
+    case.kb.rules.iter().any(|r| {
+        let mut v = Vec::new();
+        r.cond.atoms(&mut v);
+        v.into_iter()
+            .any(|a| has_op_token(&a.lit) && case.kb.rules.iter().any(|c| c.sets.iter().any(|(f, _)| *f == a.field)))
+    })
 }
 
 fn int_eq_can_become_a_pattern(case: &QCase) -> bool {
